@@ -152,6 +152,22 @@ def loop_checks(chk, prog, fn, reader, only_tail=False):
             if set(sets) == {0, 1, 2} and all(len(rs) == 1 and rs[0][0] == rs[0][1] for rs in sets.values()):
                 true_lits = [bytes(sets[i][0][0] for i in range(3)).decode("latin1")]
                 byte_form = True
+        # the block's name alone decides where it is delivered: besides the outcomes of the stream steps, an iteration's path may
+        # only test the name (as text or byte by byte)
+        dn_ = fld(okv(bid), "data_name")
+        other = []
+        for c in conds:
+            if len(c) == 3 and c[0][0] == "discr":
+                continue
+            if len(c) == 3 and c[0][0] == "idx" and c[0][1] == dn_:
+                continue
+            if len(c) == 2 and c[0][0] == "bin" and c[0][1] in ("Eq", "Ne") and any(sym._mentions(x, dn_) for x in c[0][2:4]) and not any(
+                    sym._mentions(x, fld(okv(bid), "data_block_type")) for x in c[0][2:4]):
+                continue
+            if sym._mentions(c[0], okv(bid)) or sym._mentions(c[0], bid):
+                other.append(show(c[0])[:80])
+        chk.ob("R-TABLE", FN, not other, "the delivery of a block depends on its name only" if not other else
+               "the delivery of a block also depends on: %s" % "; ".join(sorted(set(other)))[:240], w, key="name-only#%d" % n_next)
         upd_field, stored = None, None
         mv = val[lm]
         if mv[0] == "upd" and mv[1] == L:
